@@ -43,6 +43,9 @@ pub struct FileSpec {
     /// whitespace may follow the tag name.
     #[serde(default)]
     pub tab_tags: bool,
+    /// The file starts with a UTF-8 byte order mark (as Windows editors write it).
+    #[serde(default)]
+    pub bom: bool,
 }
 
 #[derive(Serialize, Deserialize, Clone, Debug, PartialEq, Default)]
@@ -466,6 +469,9 @@ pub fn render_file(f: &FileSpec, poisoned: bool) -> RenderedFile {
     match wrapper {
         Some((open, _)) => lines.push(open.to_string()),
         None => lines.push("h0=0".to_string()),
+    }
+    if f.bom {
+        lines[0].insert(0, '\u{feff}');
     }
     for (i, b) in f.blocks.iter().enumerate() {
         let mut p = vec![i];
